@@ -254,21 +254,37 @@ def derives_must(fnode, expr, pred, at, depth=6):
 
 
 def source_list(fnode, name, depth=3):
-    """Follow ``X = [f(e) for e in Y]`` (no filter) back to the list the
-    elements originally come from.  Returns (source name, [comprehensions
-    passed through])."""
+    """Follow ``X = [f(e) for e in Y]`` (no filter) - or the equivalent
+    ``X = []; for e in Y: X.append(f(e))`` - back to the list the elements
+    originally come from.  Returns (source name, [element builders passed
+    through]); an element builder is a ListComp, or a (For, append Call)
+    pair for the loop form."""
     comps = []
     cur = name
     while depth > 0:
-        ds = [d for d in local_defs(fnode).get(cur, [])
-              if d.kind != 'mutate']
-        if len(ds) != 1 or not isinstance(ds[0].value, ast.ListComp):
-            break
-        lc = ds[0].value
-        if len(lc.generators) != 1 or lc.generators[0].ifs or \
-                not isinstance(lc.generators[0].iter, ast.Name):
-            break
-        comps.append(lc)
-        cur = lc.generators[0].iter.id
-        depth -= 1
+        alld = local_defs(fnode).get(cur, [])
+        ds = [d for d in alld if d.kind != 'mutate']
+        muts = [d for d in alld if d.kind == 'mutate']
+        if len(ds) == 1 and isinstance(ds[0].value, ast.ListComp) and \
+                not muts:
+            lc = ds[0].value
+            if len(lc.generators) != 1 or lc.generators[0].ifs or \
+                    not isinstance(lc.generators[0].iter, ast.Name):
+                break
+            comps.append(lc)
+            cur = lc.generators[0].iter.id
+            depth -= 1
+            continue
+        if len(ds) == 1 and isinstance(ds[0].value, ast.List) and \
+                not ds[0].value.elts and len(muts) == 1:
+            call = muts[0].stmt.value
+            loop = getattr(muts[0].stmt, '_parent', None)
+            if isinstance(loop, ast.For) and isinstance(
+                    loop.iter, ast.Name) and call.func.attr == 'append' \
+                    and len(loop.body) == 1 and not loop.orelse:
+                comps.append((loop, call))
+                cur = loop.iter.id
+                depth -= 1
+                continue
+        break
     return cur, comps
